@@ -109,6 +109,7 @@ fn side(c: &mut Cursor) -> Side {
             0 | 1 | 2 => Nudge::Nothing,
             3 => Nudge::Flush,
             4 => Nudge::Ensure(c.u16() as u32),
+            5 if c.u8() % 4 == 0 => Nudge::Replace,
             _ => Nudge::LeaveRemaining(c.u16() % 300),
         })
         .collect();
@@ -544,7 +545,7 @@ pub fn run_filtered(target: &str, data: &[u8], only: Option<&str>) -> (&'static 
                 }
             }
             let ctor = [c11::Ctor::New, c11::Ctor::FromSlice, c11::Ctor::FromSorted][(c.u8() % 3) as usize];
-            let sink = if c.u8() % 3 == 0 { c11::SinkKind::HcobsEncoder } else { c11::SinkKind::Iovec };
+            let sink = [c11::SinkKind::Iovec, c11::SinkKind::HcobsEncoder, c11::SinkKind::Iovec, c11::SinkKind::Custom][(c.u8() % 4) as usize];
             let n = (c.u8() % 40) as usize;
             let mut pairs = vec![];
             while pairs.len() < n && !c.exhausted() {
